@@ -18,6 +18,7 @@ type Tuple []Val
 type Closure struct {
 	Fn       *ssa.Function
 	Bindings []Val
+	Src      []ssa.Value // the bound SSA values (to recognise a captured callback parameter)
 }
 
 type FuncVal struct{ Fn *ssa.Function }
@@ -159,6 +160,7 @@ type State struct {
 	steps  int
 	// copy-in/copy-out records for interior pointers materialised as cells
 	trail []string // human-readable branch trail
+	frameBase *Snapshot // after a callback call: the heap the function's own frame is measured from
 	// private: references allocated on this path that have not escaped (never
 	// stored into non-private memory, never passed to a call). No callee can
 	// reach them, so their contents survive calls that forget the heap.
@@ -178,6 +180,7 @@ func (st *State) Fork() *State {
 	// LVals pointing at frames must be re-targeted lazily: they keep Alloc
 	// identity and are resolved through the frame chain by function identity.
 	n.trail = append([]string(nil), st.trail...)
+	n.frameBase = st.frameBase
 	n.private = make(map[string]bool, len(st.private))
 	for k := range st.private {
 		n.private[k] = true
